@@ -387,12 +387,13 @@ theorem typed_rejection_iff (s : State) (c e i : Nat) (x : Ctx) (oc : OpCase) (t
 
 
 /-- the same through `bloc_parse_executable`, with the position the call writes to `*pos`: the last character of the
-text (the `;` that follows the right operand), computed from the text layout by `endPos` -/
+text layout (`OpCase.errPos`): the first token of the right operand when the left operand alone is ill-typed — its check
+throws before the right operand is parsed —, else the `;` that follows the right operand (`endPos`) -/
 theorem typed_rejection_iff_prog (s : State) (c xi i : Nat) (pos : Bool) (x : Ctx) (oc : OpCase) (t : ProgText)
     (hx : getCtx s c = some x) (hslot : s.execs[xi]? = some none)
     (hi : opCases[i]? = some oc) (ht : opProgText i = some t) :
     ((step s (.xparse c xi t pos)).2.fail = some Gen.EXC_PARSE_TYPE_MISMATCH_S ∧
-      (step s (.xparse c xi t pos)).2.res = (if pos then Res1.nullAt (endPos oc.progSrc).1 (endPos oc.progSrc).2 else Res1.null)
+      (step s (.xparse c xi t pos)).2.res = (if pos then Res1.nullAt oc.errPos.1 oc.errPos.2 else Res1.null)
         ↔ oc.accepted = false) ∧
     ((step s (.xparse c xi t pos)).2.fail = none ∧ (step s (.xparse c xi t pos)).2.res = Res1.unit ↔ oc.accepted = true) := by
   unfold opProgText at ht
@@ -421,6 +422,9 @@ example : ((step (step State.init (.cnew 0)).1 (.eparse 0 0 (.bad (opBadIndex ha
     some Gen.EXC_PARSE_UNDEFINED_SYMBOL_S := by decide +kernel
 -- the column rule on a catalog text whose position was observed: `q9 = 1 - "abc";` is reported at 1:15
 example : endPos "q9 = 1 - \"abc\";" = (1, 15) := by decide
+-- … and `q9 = "abc" - 1;` at 1:14, the `1`: the left operand is checked before the right one is parsed
+example : posBack "q9 = \"abc\" - 1;" 1 = (1, 14) := by decide
+example : (opCases[228]?).map (fun oc => (oc.body, oc.leftBad, oc.rightBad, oc.errPos)) = some ("\"a\" ** 1", true, false, (1, 13)) := by decide +kernel
 
 /-- `rejected_parse_contract`, one call of `bloc_parse_expression`: for EVERY state and EVERY text of the catalog (hand-written
 or generated) with its code `code` in that context — the call returns NULL, reports `code`, the error record is exactly
@@ -678,6 +682,43 @@ theorem cross_context_pointers (d : Nat) (ops : List Op) (s : State) (r : VRef) 
 example :
     let s := (runSeq State.init [.cnew 0, .reg 0 0 "I1" .int 0]).1
     untargeted 0 s [.cclone 0 1 2, .reg 1 1 "I2" .int 0, .vint 0 5, .store 1 1 0 true, .cpurge 1, .cfree 1, .cnew 2, .eparse 2 0 (.bad 0)] = true := by
+  decide
+
+/-! ## C15R4 — the invariant behind `purge_ends_handles_forever` -/
+
+/-- The invariant `purge_ends_handles_forever` took as a hypothesis, proved for every reachable state: after ANY call
+sequence from the initial state, the generation of every context and of every executable, expression and symbol handle the
+host holds is below the clock (generations are clock values of the past). Induction over the op list; per call: `step_gen`
+(contexts) and `step_execs` / `step_exprs` / `step_syms` (a handle after a call was there before or carries the generation
+of a context) — case analyses over the 38 ops. -/
+theorem handle_generations_below_clock (ops : List Op) : HandleWF (runSeq State.init ops).1 :=
+  handleWF_runSeq ops State.init handleWF_init
+
+/-- `purge_ends_handles_forever` without its hypothesis, for reachable states: take ANY call sequence `pre` from the initial
+state, purge a live context `c`, then ANY call sequence `ops`: every executable, expression and symbol handle of `c` the host
+held at the purge — as long as it still sits in its slot — is unusable in the final state; `bloc_execute` with such an
+executable violates the precondition. -/
+theorem purged_handles_dead_in_reachable_states (pre ops : List Op) (c : Nat) (x : Ctx)
+    (hx : getCtx (runSeq State.init pre).1 c = some x) :
+    (∀ (xi : Nat) (h : ExecH), (runSeq State.init pre).1.execs[xi]? = some (some h) → h.ctx = c →
+      (runSeq (step (runSeq State.init pre).1 (.cpurge c)).1 ops).1.execs[xi]? = some (some h) →
+      execUsable (runSeq (step (runSeq State.init pre).1 (.cpurge c)).1 ops).1 xi = none ∧
+      (step (runSeq (step (runSeq State.init pre).1 (.cpurge c)).1 ops).1 (.exec xi)).2.res = Res1.pre) ∧
+    (∀ (e : Nat) (h : ExprH), (runSeq State.init pre).1.exprs[e]? = some (some h) → h.ctx = c →
+      (runSeq (step (runSeq State.init pre).1 (.cpurge c)).1 ops).1.exprs[e]? = some (some h) →
+      exprUsable (runSeq (step (runSeq State.init pre).1 (.cpurge c)).1 ops).1 e c = none) ∧
+    (∀ (sh : Nat) (h : SymH), (runSeq State.init pre).1.syms[sh]? = some (some h) → h.ctx = c →
+      (runSeq (step (runSeq State.init pre).1 (.cpurge c)).1 ops).1.syms[sh]? = some (some h) →
+      symLive (runSeq (step (runSeq State.init pre).1 (.cpurge c)).1 ops).1 sh c = none) := by
+  obtain ⟨_, w2, w3, w4⟩ := handle_generations_below_clock pre
+  obtain ⟨p1, p2, p3⟩ := purge_ends_handles_forever (runSeq State.init pre).1 c x ops hx
+  exact ⟨fun xi h h0 hc ht => p1 xi h ht hc (w2 xi h h0), fun e h h0 hc ht => p2 e h ht hc (w3 e h h0),
+    fun sh h h0 hc ht => p3 sh h ht hc (w4 sh h h0)⟩
+
+-- non-vacuity: a reachable state with a live context holding an executable and a symbol handle
+example :
+    let s := (runSeq State.init [.cnew 0, .reg 0 0 "I1" .int 0, .xparse 0 0 (.good [.nop]) true]).1
+    ((getCtx s 0).isSome, (s.execs[0]?).map (·.map (·.ctx)), (s.syms[0]?).map (·.map (·.ctx))) = (true, some (some 0), some (some 0)) := by
   decide
 
 end BlocV.C15
